@@ -91,7 +91,7 @@ def same_result(a, b):
 # shared world: caller-owned objects
 
 class World:
-    def __init__(self, seed, n=8, m=None):
+    def __init__(self, seed, n=8, m=None, dxk=0):
         rng = np.random.default_rng(seed)
         m = m or n
         self.rng = rng
@@ -104,10 +104,15 @@ class World:
         self.opd = (rng.normal(size=(n, m)) * 0.05 + 0.2 * (yy - n / 2) / n - 0.1 * (xx - m / 2) / m) * self.wl * disc
         labels = np.where(xx < m // 2, 1, 2) * disc
         self.cube = np.stack([(labels == 1).astype(float), (labels == 2).astype(float)])
-        self.dx, self.z = 1e-3, 2.0
+        # the sampling differs from case to case so that caches keyed on it start cold in every case
+        self.dx, self.z = 1e-3 * (1 + dxk * 1e-6), 2.0
         self.du = 0.5 / max(n, m) * self.wl * self.z / self.dx
         self.pupil = lentil.Pupil(amplitude=self.amp, opd=self.opd, mask=self.mask, pixelscale=self.dx, focal_length=self.z)
         self.seg = lentil.Pupil(amplitude=self.amp, opd=self.opd, mask=self.cube, pixelscale=self.dx, focal_length=self.z)
+        rect = np.zeros((n, m))
+        rect[1:n - 2, m // 2 - 1:] = 1.0                                 # overlaps the disc only partially
+        self.rect = rect
+        self.pupil2 = lentil.Pupil(amplitude=rect * 0.8, opd=self.opd * 0.7, mask=rect, pixelscale=self.dx, focal_length=self.z)
         self.wave0 = lentil.Wavefront(self.wl)                          # pristine: never used while building the world
         self.wpupil = lentil.Wavefront(self.wl) * self.pupil
         self.wtilt = lentil.Wavefront(self.wl, tilt=[2e-6, -1e-6]) * self.seg      # fields that already carry tilt
@@ -131,7 +136,7 @@ class World:
 
     def watched(self):
         return [self.amp, self.mask, self.imask, self.opd, self.cube, self.pupil, self.seg, self.wave0, self.wpupil,
-                self.wtilt, self.wfit, self.out_mask, self.f, self.frame, self.iframe, self.cube_img, self.wave_nm, self.s_um, self.s_nm,
+                self.wtilt, self.wfit, self.rect, self.pupil2, self.out_mask, self.f, self.frame, self.iframe, self.cube_img, self.wave_nm, self.s_um, self.s_nm,
                 self.s_dens, self.gain, self.pgain, self.img, self.rho, self.theta, self.coeffs, self.modes]
 
     def arrays(self):
@@ -162,6 +167,10 @@ OPS = {
     "wavefront.field": lambda w, p: w.wpupil.field,
     "wavefront.intensity": lambda w, p: w.wpupil.intensity,
     "fit_tilt_copy": lambda w, p: w.pupil.fit_tilt(inplace=False),
+    "fit_tilt_copy_other_mask": lambda w, p: w.pupil2.fit_tilt(inplace=False),
+    "ptt_vector": lambda w, p: w.pupil.ptt_vector,
+    "ptt_vector_other_mask": lambda w, p: w.pupil2.ptt_vector,
+    "ptt_vector_segmented": lambda w, p: w.seg.ptt_vector,
     "fit_tilt_copy_segmented": lambda w, p: w.seg.fit_tilt(inplace=False),
     "fit_then_propagate": lambda w, p: lentil.propagate_dft(w.wave0 * w.pupil.fit_tilt(), pixelscale=w.du, shape=(6, 6), oversample=2),
     "rescale": lambda w, p: w.pupil.rescale([0.5, 1.5, 2.0][p % 3]),
@@ -230,7 +239,7 @@ def run_op(name, world, p):
 
 
 def diff_watch(before, world):
-    names = ["amp", "mask", "imask", "opd", "cube", "pupil", "seg", "wave0", "wpupil", "wtilt", "wfit", "out_mask", "f", "frame",
+    names = ["amp", "mask", "imask", "opd", "cube", "pupil", "seg", "wave0", "wpupil", "wtilt", "wfit", "rect", "pupil2", "out_mask", "f", "frame",
              "iframe", "cube_img", "wave_nm", "s_um", "s_nm", "s_dens", "gain", "pgain", "img", "rho", "theta",
              "coeffs", "modes"]
     return [n for n, b, o in zip(names, before, world.watched()) if b != snap(o)]
@@ -241,7 +250,8 @@ def diff_watch(before, world):
 
 @hyp("C10", "single_call", lambda tier: st.fixed_dictionaries(
         {"op": st.sampled_from(OP_NAMES), "seed": st.integers(0, 2**31 - 1), "p": st.integers(0, 11),
-         "n": st.sampled_from([7, 8, 9]), "m": st.sampled_from([7, 8, 10]), "global_seed": st.integers(0, 2**31 - 1)}),
+         "n": st.sampled_from([7, 8, 9]), "m": st.sampled_from([7, 8, 10]), "global_seed": st.integers(0, 2**31 - 1),
+         "dxk": st.integers(0, 10**6)}),
      "one registry entry point on seeded inputs: all caller-owned arrays / planes / wavefronts / spectra "
      "byte-identical afterwards; the same call on frozen (read-only) arrays must not fail; repeating it gives the "
      "same result; seeded functions leave the global RNG alone", examples=(700, 3000), budget_s=(200, 900))
@@ -249,7 +259,7 @@ def single_call(case, ctx):
     name = case["op"]
     ctx.tag("op:" + name)
     ctx.nontrivial_if(True)
-    world = World(case["seed"], case["n"], case["m"])
+    world = World(case["seed"], case["n"], case["m"], case.get("dxk", 0))
     before = [snap(o) for o in world.watched()]
     np.random.seed(case["global_seed"])
     random.seed(case["global_seed"])
@@ -267,7 +277,7 @@ def single_call(case, ctx):
     if not same_result(r1, r2):
         raise Violation("C10.repeat", f"{name}: repeating the call with unchanged arguments gave a different result")
     # frozen pass: a write into any caller array now raises
-    world2 = World(case["seed"], case["n"], case["m"])
+    world2 = World(case["seed"], case["n"], case["m"], case.get("dxk", 0))
     for a in world2.arrays():
         a.setflags(write=False)
     try:
@@ -288,7 +298,8 @@ def _enum_ops(tier):
     for name in OP_NAMES:
         for k, (n, m) in enumerate([(8, 8), (7, 10), (9, 7)]):
             for p in ((0, 5) if tier == "quick" else (0, 1, 2, 5, 7, 11)):
-                yield {"op": name, "seed": 1000 + 17 * k + p, "p": p, "n": n, "m": m, "global_seed": 5 + p}
+                yield {"op": name, "seed": 1000 + 17 * k + p, "p": p, "n": n, "m": m, "global_seed": 5 + p,
+                       "dxk": 7 * k + p}
 
 
 @enum("C10", "all_ops", _enum_ops,
@@ -301,7 +312,7 @@ def all_ops(case, ctx):
 # ---------------------------------------------------------------------------------------------------
 # (2) histories on shared objects
 
-PROBES = ["propagate_dft", "propagate_tilted", "multiply_tilt_on_fitted", "dft2", "dft2_same_shape", "spectrum_sample", "fit_then_propagate", "collect_charge_spectrum",
+PROBES = ["fit_tilt_copy_other_mask", "ptt_vector_other_mask", "fit_tilt_copy", "propagate_dft", "propagate_tilted", "multiply_tilt_on_fitted", "dft2", "dft2_same_shape", "spectrum_sample", "fit_then_propagate", "collect_charge_spectrum",
           "zernike_custom_coords", "adc", "multiply_segmented"]
 
 
@@ -309,12 +320,12 @@ PROBES = ["propagate_dft", "propagate_tilted", "multiply_tilt_on_fitted", "dft2"
         {"seed": st.integers(0, 2**31 - 1), "n": st.sampled_from([7, 8]), "m": st.sampled_from([8, 9]),
          "steps": st.lists(st.tuples(st.sampled_from(OP_NAMES), st.integers(0, 11)), min_size=3,
                            max_size=12 if tier == "quick" else 20),
-         "probe_p": st.integers(0, 11)}),
+         "probe_p": st.integers(0, 11), "dxk": st.integers(0, 10**6)}),
      "programs of 3-20 registry calls on ONE shared world: after every call all shared objects are byte-identical, "
      "and a fixed set of probe calls gives the same result before and after the history", examples=(250, 1000),
      budget_s=(200, 900))
 def history(case, ctx):
-    world = World(case["seed"], case["n"], case["m"])
+    world = World(case["seed"], case["n"], case["m"], case.get("dxk", 0))
     before = [snap(o) for o in world.watched()]
     base = {}
     for pr in PROBES:
